@@ -24,6 +24,14 @@ from props import c24_real as R
 CLEAN_REFUSALS = {"GenerationError", "ParseError", "NotImplementedError"}
 
 
+class CalibrationViolation(Exception):
+    """The real code breaks the property already on invoke(K(zza0..), K(zzb0..)) with plain distinct names."""
+
+    def __init__(self, case, detail):
+        super().__init__(detail)
+        self.case, self.detail = case, detail
+
+
 # ------------------------------------------------------------------------------------------ generator
 def gen_kernel(rng, pools, force=None):
     if force is not None:
@@ -110,28 +118,32 @@ def layout(kname, builtin):
     lines.append("call invoke(" + ", &\n ".join(
         k["kname"] + "(" + ", ".join(a["canon"] for a in k["args"]) + ")" for k in (ka, kb)) + ")")
     lines.append("end program cal")
-    res = R.run_generate("\n".join(lines) + "\n", False)
+    text = "\n".join(lines) + "\n"
+    ccase = {"text": text, "dm": False, "invokes": [{"name": None, "name_src": None, "kernels": [ka, kb]}]}
+    res = R.run_generate(text, False)
     if res[0] != "ok":
         raise common.Infra(f"calibration of {kname} failed: {res[1:]}")
     calls, _, _ = R.read_alg(res[1])
     rts = R.read_psy(res[2])
     if len(calls) != 1 or len(rts) != 1 or len(rts[0].loops) != 2:
-        raise common.Infra(f"calibration of {kname}: unexpected generated structure")
+        raise CalibrationViolation(ccase, f"{kname} called twice with plain names: {len(calls)} rewritten calls, "
+                                          f"{len(rts)} PSy routines, {[len(r.loops) for r in rts]} kernel loops")
     rt = rts[0]
     bnames = {a["canon"]: j for j, a in enumerate(kb["args"])}
     if calls[0][1] != rt.dummies or set(bnames) - set(rt.dummies):
-        raise common.Infra(f"calibration of {kname}: plain names are not passed through unchanged")
+        raise CalibrationViolation(ccase, f"{kname} called twice with plain distinct names: the algorithm call passes "
+                                          f"{calls[0][1]} but the PSy routine declares {rt.dummies}")
     loop = rt.loops[1]
     if builtin:
         if loop[0] != "assign":
-            raise common.Infra(f"calibration of built-in {kname}: no assignment loop")
+            raise CalibrationViolation(ccase, f"built-in {kname}: no assignment loop")
         lay = ("template", [_templ(rt, side, bnames) for side in loop[1:]])
         seen = set(re.findall(r"#(\d+)#", "".join(lay[1])))
         if seen != {str(j) for j in range(len(sig))}:
-            raise common.Infra(f"calibration of built-in {kname}: arguments {seen} of {len(sig)} seen")
+            raise CalibrationViolation(ccase, f"built-in {kname}: only arguments {sorted(seen)} of {len(sig)} reach the statement {loop[1:]}")
     else:
         if loop[0] != "call":
-            raise common.Infra(f"calibration of {kname}: no kernel call in second loop")
+            raise CalibrationViolation(ccase, f"{kname}: no kernel call in second loop")
         pos, covered = {}, set()
         for p, actual in enumerate(loop[2]):
             t = rt.trace_text(actual)
@@ -139,7 +151,8 @@ def layout(kname, builtin):
                 pos[p] = sorted(bnames[x] for x in t)
                 covered |= set(pos[p])
         if covered != set(range(len(sig))):
-            raise common.Infra(f"calibration of {kname}: arguments {sorted(covered)} of {len(sig)} reach the kernel call")
+            raise CalibrationViolation(ccase, f"{kname} with plain names: only arguments {sorted(covered)} of {len(sig)} "
+                                              f"reach the kernel call {loop[2]}")
         lay = ("positions", pos)
     st["layouts"][key] = lay
     return lay
@@ -253,7 +266,7 @@ def _strip(s):
 
 def evaluate(case):
     """run the real code and evaluate the property; returns dict(status, invokes=[per-invoke observation], bad=[...])"""
-    res = R.run_generate(case["text"], case["dm"])
+    res = R.run_generate(case["text"], case["dm"], case.get("testing", False))
     if res[0] == "error":
         return {"status": "refused", "error": res[1], "message": res[2], "bad": []}
     calls, left, uses = R.read_alg(res[1])
@@ -422,13 +435,15 @@ def run(chk):
     chk.lean()
     try:
         _run(chk)
+    except CalibrationViolation as cv:
+        chk.violation(payload_of(cv.case, "calibration", cv.detail))
     finally:
         R.cleanup()
 
 
 def _run(chk):
     R.setup()
-    n = 90 if chk.tier != "thorough" else 1000
+    n = 90 if chk.tier != "thorough" else 600
     cases = [dict(c, corpus=True) for c in corpus_cases()]
     for i in range(n):
         cases.append(gen_file(chk.rng, malformed=(i % 8 == 7)))
@@ -513,23 +528,77 @@ def _run(chk):
             reported.add(reason)
             chk.violation(payload_of(case, reason, detail))
     chk.cov["distribution"] = dist
+    if chk.tier == "thorough":
+        gfortran_stage(chk, [c for c in cases if not c.get("corpus")], dist)
     # known findings: replay each witness against the real code
     for e in common.known_findings("C24"):
         w = e["witness"]
-        ev = evaluate({"text": w["text"], "dm": w.get("dm", False), "invokes": w["invokes"]})
+        ev = evaluate({"text": w["text"], "dm": w.get("dm", False), "invokes": w["invokes"],
+                       "testing": w.get("testing", False)})
         if ev["status"] == "ok" and any(r == w["reason"] for r, _ in ev["bad"]):
             chk.known(e["what"])
+
+
+def gfortran_stage(chk, cases, dist, limit=30):
+    """thorough tier: gfortran checks the explicit interface of every rewritten call against the PSy routine"""
+    from props import c24_fexec as FX
+    fx = FX.Fexec(R.setup()["kdir"])
+    g = {"files": 0, "clean": 0, "other_errors": 0, "known_class": 0}
+    try:
+        for case in cases:
+            if g["files"] >= limit:
+                break
+            res = R.run_generate(case["text"], case["dm"])
+            if res[0] != "ok":
+                continue
+            g["files"] += 1
+            out = fx.check(res[1], res[2])
+            rel = [(l, m) for l, m in out if not l.startswith("other-")]
+            if not out:
+                g["clean"] += 1
+            elif not rel:
+                g["other_errors"] += 1
+            elif any(roles_shared(i) for i in case["invokes"]) and all("Duplicate symbol" in m for _, m in rel):
+                g["known_class"] += 1
+            else:
+                chk.violation(payload_of(case, "gfortran", "; ".join(f"{l}: {m}" for l, m in rel[:4])))
+                break
+    finally:
+        fx.close()
+    dist["gfortran"] = g
 
 
 def replay(payload):
     R.setup()
     try:
+        if payload.get("reason") == "gfortran":
+            from props import c24_fexec as FX
+            res = R.run_generate(payload["text"], payload["dm"])
+            if res[0] != "ok":
+                print("real code refuses the file:", res[1:])
+                return 0
+            fx = FX.Fexec(R.setup()["kdir"])
+            try:
+                rel = [(l, m) for l, m in fx.check(res[1], res[2]) if not l.startswith("other-")]
+            finally:
+                fx.close()
+            print(payload["text"], "\nexpected:", payload["expected"], "\nobserved (gfortran):", rel or "compiles")
+            return 1 if rel else 0
         if payload.get("kind") != "failing-input":
             print("no failing input stored in this replay file:", payload.get("note", ""))
             return 1 if payload.get("broken") else 0
-        case = {"text": payload["text"], "dm": payload["dm"], "invokes": payload["invokes"]}
-        ev = evaluate(case)
+        case = {"text": payload["text"], "dm": payload["dm"], "invokes": payload["invokes"],
+                "testing": payload.get("testing", False)}
         print(payload["text"])
+        try:
+            ev = evaluate(case)
+        except CalibrationViolation as cv:
+            print("expected:", payload["expected"])
+            print("observed:", cv.detail)
+            return 1
+        if payload["reason"] == "calibration":
+            print("observed: the plain-name invoke is now handled consistently")
+            return 0
         if ev["status"] == "refused":
             print("real code refuses the file:", ev["error"], ev["message"])
             return 0
